@@ -513,3 +513,49 @@ package commonmark
 //@   loop 0: invariant[where] fresh(dst) || (aliases(dst, old(dst)) && cap(dst) == cap(old(dst)))
 //@   loop 0: invariant[frame] framed()
 //@   serves C07, C04
+
+// ---------------------------------------------------------------------------
+// Tag names and case folding (C17, C13)
+// ---------------------------------------------------------------------------
+
+//@ spec Lower(c int) int = (c >= 'A' && c <= 'Z') ? c + 32 : c
+//@ spec IsTagNameChar(c int) bool = IsLetter(c) || IsDigit(c) || c == '-'
+//@ -- end of the tag name that starts at b[0]: an ASCII letter followed by letters, digits and hyphens
+//@ spec TagNameEnd(s []byte, a int, b int) int = a >= b ? b : (IsTagNameChar(s[a]) ? TagNameEnd(s, a+1, b) : a)
+
+//@ lemma TagNameEnd_is(s []byte, a int, b int, e int)
+//@   requires a <= e && e <= b
+//@   requires forall k in [a, e): IsTagNameChar(s[k])
+//@   requires e == b || !IsTagNameChar(s[e])
+//@   ensures TagNameEnd(s, a, b) == e
+//@   decreases e - a
+//@   ih TagNameEnd_is(s, a+1, b, e)
+
+//@ func toLowerASCII
+//@   ensures[lower] result == Lower(c)
+//@   serves C17, C04
+
+//@ func htmlTagNameEnd
+//@   ensures[none] (len(b) == 0 || !IsLetter(b[0])) ==> result == 0
+//@   ensures[end] (len(b) > 0 && IsLetter(b[0])) ==> result == TagNameEnd(b, 1, len(b))
+//@   ensures[range] 0 <= result && result <= len(b)
+//@   loop 0: invariant[name] 1 <= i && i <= len(b) && IsLetter(b[0]) && (forall k in [1, i): IsTagNameChar(b[k]))
+//@   loop 0: decreases len(b) - i
+//@   use TagNameEnd_is(b, 1, len(b), i)
+//@   serves C17, C13, C04
+
+//@ func maybeLower
+//@   requires !isnil(buf) && !sameArray(*buf, x)
+//@   modifies *buf, (*buf)[0:cap(*buf)], alloc
+//@   ensures[len] len(result) == len(x)
+//@   ensures[lower] forall k in [0, len(x)): result[k] == Lower(x[k])
+//@   ensures[same] (forall k in [0, len(x)): !(x[k] >= 'A' && x[k] <= 'Z')) ==> aliases(result, x)
+//@   ensures[x] forall k in [0, len(x)): x[k] == old(x[k])
+//@   loop 0: invariant[noupper] forall k in [0, _i): !(x[k] >= 'A' && x[k] <= 'Z')
+//@   loop 1: invariant[len] len(*buf) == _i && !isnil(buf)
+//@   loop 1: invariant[lower] forall k in [0, _i): (*buf)[k] == Lower(x[k])
+//@   loop 1: invariant[x] forall k in [0, len(x)): x[k] == old(x[k])
+//@   loop 1: invariant[alias] !sameArray(*buf, x) || isnil(*buf)
+//@   loop 1: invariant[where] fresh(*buf) || (aliases(*buf, old(*buf)) && cap(*buf) == cap(old(*buf)))
+//@   loop 1: invariant[frame] framed()
+//@   serves C17, C04
